@@ -351,6 +351,19 @@ def after_skip_rule(ctx):
             n_sites += 1
             before = [y for y in order[:pos_of[id(x)]] if y.get("k") == "mcall" and sir.expr_str(y["recv"]) == "ps" and y["m"] in ("peek", "peek_n", "peek_str", "peek_chars") and id(y) not in rolled]
             key = "C16.loc/after-skip/%s/%s" % (f.qual, v)
+            if not before and not f.node.get("vis"):
+                # a private helper: the look-ahead may have been done by every caller before the call
+                csites = []
+                for g in tc.fns:
+                    if not g.body or g is f or g.module[:2] != ["parse", "expr"]:
+                        continue
+                    gorder = list(sir.walk(g.body))
+                    for i, c in enumerate(gorder):
+                        if c.get("k") in ("call", "mcall") and sir.call_name(c) == f.name:
+                            csites.append(any(y.get("k") == "mcall" and sir.expr_str(y["recv"]) == "ps" and y["m"] in ("peek", "peek_n", "peek_str", "peek_chars", "next") for y in gorder[:i]))
+                if csites and all(csites):
+                    obs.append(ob(key, True, ctx.where(f), "start position `%s` is taken at the entry of a private helper; each of its %d call sites has looked at the token before the call" % (v, len(csites))))
+                    continue
             if not before and f.qual in REVIEWED:
                 obs.append(ob(key, True, ctx.where(f), "reviewed exception: " + REVIEWED[f.qual]))
                 continue
